@@ -239,10 +239,16 @@ func runQuery(in *input, res *result) {
 		if cls == "none" && tr.LabI != "none" && tr.LabI != "" {
 			cls = "denylist-quote-deletion" // ioDenylistNormalise deletes " and ` before masking (sub-class tr.LabI)
 		}
+		if cls == "none" && tr.Shape != "" && tr.Shape != "none" {
+			cls, hidden = tr.Shape, true // a shape the spec marks as invisible to the rewrite's CTE handling
+		}
+		if cls == "none" && !tr.Rt {
+			cls, hidden = "placeholder-lookalike-unmask", true // the model's Unmask(Mask(s)) differs from s
+		}
 		if cls == "none" && tr.LabV != "none" {
 			cls = "validate:" + tr.LabV
 		}
-		for _, hdr := range []string{"", "allowed"} {
+		for _, hdr := range []string{"", "allowed", "foreign"} {
 			res.Evaluations++
 			st, body, err := post(text, hdr)
 			asked := rec.take()
